@@ -59,7 +59,7 @@ def run(ctx, clauses=CLAUSES, prop_note=None):
 
     # ---- E2 / E3: the real solvers, judged by TLC -------------------------------
     big = []
-    for _ in range(900 if thorough else 110):
+    for _ in range(400 if thorough else 110):   # about 2.5 CPU-seconds of trace validation per call on these
         big.append(sc.random_sinput(rng, FAM, 5, 4, 4, min_obj=4))
     # three object leaves on three species leaves: every leaf assignment x every tuple of leaf orders
     tiny3 = list(sc.small_inputs(FAM, gen.bin_shapes(3), gen.bin_shapes(3), LEAF_SYNS, sc.SUPER_COSTS[:1]))
@@ -79,7 +79,6 @@ def run(ctx, clauses=CLAUSES, prop_note=None):
             for u, s_ in zip(leaves, combo):
                 syn[u - 1] = s_
             sweep.append(sc.sinput(ot, st, lm, sc.SUPER_COSTS[0], syn, (1, 2, 3, 4)))
-        sweep = sweep[ctx.seed % 3::3]   # a third of the 50 625 tuples per run (the seed picks which): keeps the tier near 10 minutes
         cases += [(FAM, inp, (("ext", "ALL"),)) for inp in sweep]
         ctx.extra["caterpillar_sweep"] = len(sweep)
     results = sc.run_all(cases)
